@@ -38,6 +38,17 @@ HEADROOM = int(os.environ.get("SIM_HEADROOM", "300"))
 REPO_PREFIXES: tuple = ()  # set by zygote: real paths of /repo/pyteal and /repo/feature_gates
 
 
+def _proto_marker_set() -> bool:
+    """reads of PyTeal internals are for probes / reach measures only (never verdicts) and must
+    survive a refactor that renames them"""
+    return getattr(SubroutineEval, "_current_proto", None) is not None
+
+
+def _ctx_flags_ok() -> bool:
+    ctx = getattr(TealComponent, "Context", None)
+    return bool(getattr(ctx, "checkExprEquality", True) and getattr(ctx, "checkScratchSlotEquality", True))
+
+
 class SimAbort(BaseException):
     """Injected abort (fault kind F-D).  BaseException so that no `except Exception`
     inside the library can swallow it and turn a fault into a silently different program."""
@@ -168,7 +179,7 @@ class Injector:
     @classmethod
     def _tags(cls, f) -> int:
         t = 0
-        if SubroutineEval._current_proto is not None:
+        if _proto_marker_set():
             t |= TAG_PROTO
         if cls.expected_gate and not FeatureGates.sourcemap_enabled():
             t |= TAG_SMOFF
@@ -332,6 +343,13 @@ class Forget:
 
 
 def _install_probes():
+    try:
+        _install_probes_impl()
+    except Exception:  # noqa: BLE001 - reach counters only
+        Probes.hit("probe_installation_failed")
+
+
+def _install_probes_impl():
     orig_assign = _slots_mod.assignScratchSlotsToSubroutines
 
     def assign_with_tie_probe(subroutineBlocks):
@@ -363,9 +381,9 @@ def _install_probes():
 
     def reset_probe(cls, *a, **k):
         # signature-transparent: whatever defaults the repository's method has stay in force
-        before = cls.nextSlotId
+        before = getattr(cls, "nextSlotId", 0)
         r = orig_reset(cls, *a, **k)
-        if cls.nextSlotId < before:
+        if getattr(cls, "nextSlotId", 0) < before:
             Probes.hit("slot_counter_rewind")
         return r
 
@@ -394,14 +412,19 @@ def _depth() -> int:
 
 def state_signature() -> list:
     """Coarse signature of the hidden process state (for the 'distinct states reached' measure)."""
-    sd = ScratchSlot.nextSlotId - 256
+    try:
+        sd = int(getattr(ScratchSlot, "nextSlotId", 256)) - 256
+        nsub = int(getattr(SubroutineDefinition, "nextSubroutineId", 0))
+        ntm = len(getattr(pt.Tmpl, "_session_templates", ()))
+    except Exception:  # noqa: BLE001
+        sd, nsub, ntm = 0, 0, 0
     return [
-        min(sd.bit_length(), 12),
-        min(SubroutineDefinition.nextSubroutineId.bit_length(), 8),
-        int(SubroutineEval._current_proto is not None),
+        min(max(sd, 0).bit_length(), 12),
+        min(max(nsub, 0).bit_length(), 8),
+        int(_proto_marker_set()),
         int(bool(FeatureGates.sourcemap_enabled())),
         int(bool(FeatureGates.sourcemap_debug())),
-        min(len(pt.Tmpl._session_templates), 4) if hasattr(pt.Tmpl, "_session_templates") else 0,
+        min(ntm, 4),
     ]
 
 
@@ -665,11 +688,11 @@ class World:
             ev["r"] = out[1]
         # invariants at quiescence (early warnings, not verdicts)
         inv = []
-        if SubroutineEval._current_proto is not None:
+        if _proto_marker_set():
             inv.append("proto_marker_stale")
         if [bool(FeatureGates.sourcemap_enabled()), bool(FeatureGates.sourcemap_debug())] != self.expected_gates:
             inv.append("gate_not_restored")
-        if not (TealComponent.Context.checkExprEquality and TealComponent.Context.checkScratchSlotEquality):
+        if not _ctx_flags_ok():
             inv.append("context_flag")
         if inv:
             ev["inv"] = inv
